@@ -419,6 +419,26 @@ func checkC18(w *World, r *Report) {
 		}
 	})
 
+	r.Rule("R18.10", "one place decides which defaults exist: the default children of a schema node are enumerated only by the decorator's yangDataChildren, which applies the explicit-data and active/default-case tests — a missing container is decorated in its own right, not filled with all of its default children", 1)
+	r.guard("R18.10", func() {
+		sp := w.SSAPkg("schema")
+		var callers []string
+		for _, f := range allFuncs(sp) {
+			if isTestFile(w, f.Pos()) {
+				continue
+			}
+			for _, b := range f.Blocks {
+				for _, in := range b.Instrs {
+					if c, ok := in.(ssa.CallInstruction); ok && c.Common().IsInvoke() && c.Common().Method.Name() == "DefaultChildren" {
+						callers = append(callers, f.Name())
+					}
+				}
+			}
+		}
+		sort.Strings(callers)
+		r.Check(strings.Join(callers, ",") == "yangDataChildren", "R18.10", "callers of Node.DefaultChildren", token.NoPos, "yangDataChildren only", "default children are enumerated in {"+strings.Join(callers, ",")+"}: outside yangDataChildren nothing tests whether a default belongs to the active or default case, so e.g. an absent non-presence container is created with the defaults of every case of a choice inside it")
+	})
+
 	r.Rule("R18.3", "explicit data wins and decoration is idempotent in what it adds: a default is created only for a child name not already present; a leaf's HasDefault agrees with its Default (which suppresses a type default on a mandatory leaf)", 2)
 	r.guard("R18.3", func() {
 		fd, _ := w.FuncDecl(w.Method("schema", "addDefaults", "yangDataChildren"))
